@@ -21,7 +21,7 @@ import (
 func init() {
 	Registry["C06"] = &Check{
 		Scenarios: c06Scenarios,
-		Rule: "histories: a retained first message M1 (one per slice-backed representation: Address IPv4 / IPv6 / other family, undefined AVP, IPv4, IPv6, OctetString, UTF8String, a grouped AVP containing each, nested groups; and one AVP of every declared type carrying payloads of 15 unexpected lengths / shapes, i.e. the lenient decode paths) followed by every sequence of <=3 further reads drawn from {same size with other content, larger but pooled, larger than the 1 KiB pooled buffer} x {same reader, another reader}; the pool shim reuses buffers deterministically (LIFO), so nothing depends on sync.Pool's luck. schedules: two connections served by the real reader loops, a handler that retains the first message of connection A, a concurrent writer; Pool.Get is an explored choice (any pooled buffer, or a fresh one); every schedule up to preemption bound 2 (thorough: 4 on all fifteen retained shapes). Oracle: Serialize() bytes and String() of M1 taken when the reader returned it equal those taken at quiescence.",
+		Rule: "histories: a retained first message M1 (one per slice-backed representation: Address IPv4 / IPv6 / other family, undefined AVP, IPv4, IPv6, OctetString, UTF8String, a grouped AVP containing each, nested groups; and one AVP of every declared type carrying payloads of 15 unexpected lengths / shapes, i.e. the lenient decode paths) followed by every sequence of <=3 further reads drawn from {same size with other content, larger but pooled, larger than the 1 KiB pooled buffer} x {same reader, another reader}; the pool shim reuses buffers deterministically (LIFO), so nothing depends on sync.Pool's luck; the same with the exported tuning variable diam.MessageBufferLength raised to 4096 and retained payloads of 1000..3000 bytes. schedules: two connections served by the real reader loops, a handler that retains the first message of connection A, a concurrent writer; Pool.Get is an explored choice (any pooled buffer, or a fresh one); every schedule up to preemption bound 2 (thorough: 4 on all fifteen retained shapes). Oracle: Serialize() bytes and String() of M1 taken when the reader returned it equal those taken at quiescence.",
 		Assume: []string{"data-race freedom between visible operations (audited separately with -race)", "sync.Pool is modelled as: Get returns any previously Put object or allocates"},
 		QuickBudget: 100, ThoroughBudget: 1500,
 	}
@@ -168,7 +168,8 @@ func c06Scenarios(tier string) []*Scenario {
 	if v := os.Getenv("C06_BOUND"); v != "" {
 		bound, _ = strconv.Atoi(v)
 	}
-	out := []*Scenario{{Name: "histories", Seq: func(r *SeqResult) { c06Histories(r, tier == "thorough") }}}
+	out := []*Scenario{{Name: "histories", Seq: func(r *SeqResult) { c06Histories(r, tier == "thorough") }},
+		{Name: "histories/MessageBufferLength=4096", Seq: c06BigBuffer}}
 	names, wires := c06Firsts()
 	for i, n := range names {
 		if tier != "thorough" && !(n == "addr-e164" || n == "unknown" || n == "ipv4" || n == "group-of-all" || n == "utf8") {
@@ -264,6 +265,90 @@ func c06Histories(r *SeqResult, thorough bool) {
 			if viol != "" && r.Violation == "" {
 				r.Violation = fmt.Sprintf("retained message %q: %s", name, viol)
 				r.Case = map[string]interface{}{"first": name, "steps": fmt.Sprint(sq)}
+			}
+		}
+	}
+}
+
+// c06BigBuffer: the exported tuning variable diam.MessageBufferLength raised to 4 KiB; retained
+// messages carry 1000..3000-byte payloads of every slice-backed kind, i.e. bodies that are pooled
+// only under the enlarged setting.
+func c06BigBuffer(r *SeqResult) {
+	c06Setup()
+	old := diam.MessageBufferLength
+	diam.MessageBufferLength = 4096
+	defer func() { diam.MessageBufferLength = old }()
+	hdr := refcodec.Header{Version: 1, Flags: 0x80, Code: 777, App: 0, HbH: 1, E2E: 1}
+	mk := func(n refcodec.Node) []byte { return refcodec.EncodeMessage(hdr, []refcodec.Node{n}) }
+	fill := func(l int, b byte) []byte { return bytes.Repeat([]byte{b}, l) }
+	type first struct {
+		name string
+		wire func(fillByte byte) []byte
+	}
+	var firsts []first
+	for _, l := range []int{1000, 1023, 1024, 1025, 1500, 3000} {
+		l := l
+		firsts = append(firsts,
+			first{fmt.Sprintf("unknown/%d", l), func(b byte) []byte { return mk(refcodec.Node{Code: c06Alpha.Undef[0], Payload: fill(l, b)}) }},
+			first{fmt.Sprintf("octetstring/%d", l), func(b byte) []byte {
+				return mk(refcodec.Node{Code: c06Alpha.Plain[atoms.KOctet].Code, Flags: 0x40, Payload: fill(l, b)})
+			}},
+			first{fmt.Sprintf("address-other-family/%d", l), func(b byte) []byte {
+				return mk(refcodec.Node{Code: c06Alpha.Plain[atoms.KAddr].Code, Flags: 0x40, Payload: append([]byte{0, 8}, fill(l, b)...)})
+			}},
+			first{fmt.Sprintf("group-of-unknown/%d", l), func(b byte) []byte {
+				return mk(refcodec.Node{Code: c06Alpha.Groups[0].Code, Flags: 0x40, Group: true, Children: []refcodec.Node{{Code: c06Alpha.Undef[0], Payload: fill(l, b)}}})
+			}})
+	}
+	for _, f := range firsts {
+		for _, other := range []bool{false, true} {
+			f, other := f, other
+			var viol string
+			s := vs.Run(nil, false, 0, false, func() {
+				a, b := f.wire(0xAA), f.wire(0x55)
+				streams := [2][]byte{a, nil}
+				idx := 0
+				if other {
+					idx = 1
+				}
+				streams[idx] = append(streams[idx], b...)
+				streams[idx] = append(streams[idx], b...)
+				rd := [2]*bytes.Reader{bytes.NewReader(streams[0]), bytes.NewReader(streams[1])}
+				m1, err := diam.ReadMessage(rd[0], c06Dict.P)
+				if err != nil {
+					viol = "first message unreadable: " + err.Error()
+					return
+				}
+				snap, e := c06Take(m1)
+				if e != "" {
+					viol = e
+					return
+				}
+				for j := 0; j < 2; j++ {
+					if _, err := diam.ReadMessage(rd[idx], c06Dict.P); err != nil {
+						viol = "follow-up unreadable: " + err.Error()
+						return
+					}
+					now, e := c06Take(m1)
+					if e != "" {
+						viol = e
+						return
+					}
+					if !bytes.Equal(now.wire, snap.wire) || now.str != snap.str {
+						viol = fmt.Sprintf("with diam.MessageBufferLength = 4096 the retained message changed after later read %d (other reader: %v)", j+1, other)
+						return
+					}
+				}
+			})
+			s.Teardown()
+			r.Cases++
+			r.Distinct++
+			if r.Sample == "" {
+				r.Sample = "MessageBufferLength=4096, retain " + f.name + ", then two same-size reads"
+			}
+			if viol != "" && r.Violation == "" {
+				r.Violation = fmt.Sprintf("retained message %q: %s", f.name, viol)
+				r.Case = map[string]interface{}{"first": f.name, "other": other}
 			}
 		}
 	}
